@@ -321,15 +321,25 @@ func (store *fileStore) SaveMessage(seqNum int, msg []byte) error {
 	if _, err := store.headerFile.Seek(0, io.SeekEnd); err != nil {
 		return fmt.Errorf("unable to seek to end of file: %s: %s", store.headerFname, err.Error())
 	}
-	if _, err := fmt.Fprintf(store.headerFile, "%d,%d,%d\n", seqNum, offset, len(msg)); err != nil {
-		return fmt.Errorf("unable to write to file: %s: %s", store.headerFname, err.Error())
-	}
 
+	// The body goes first (and is flushed first): an index line must never point at
+	// bytes that are not there, or a later message would be read in their place.
 	if _, err := store.bodyFile.Write(msg); err != nil {
 		return fmt.Errorf("unable to write to file: %s: %s", store.bodyFname, err.Error())
 	}
 	if store.fileSync {
-		return store.syncBodyAndHeaderFilesLocked()
+		if err := store.bodyFile.Sync(); err != nil {
+			return fmt.Errorf("unable to flush file: %s: %s", store.bodyFname, err.Error())
+		}
+	}
+
+	if _, err := fmt.Fprintf(store.headerFile, "%d,%d,%d\n", seqNum, offset, len(msg)); err != nil {
+		return fmt.Errorf("unable to write to file: %s: %s", store.headerFname, err.Error())
+	}
+	if store.fileSync {
+		if err := store.headerFile.Sync(); err != nil {
+			return fmt.Errorf("unable to flush file: %s: %s", store.headerFname, err.Error())
+		}
 	}
 	return nil
 }
